@@ -107,6 +107,10 @@ func (p *FunctionBuilder) CreateFunction(m *bmodel.MethodEntry) (*gmodel.Functio
 		if srcVar.External {
 			return nil, logger.Errorf("%v: an external package type cannot be a receiver", p.fset.Position(m.Method.Pos()))
 		}
+		if named, ok := util.DerefPtr(src.Type()).(*types.Named); !ok || 0 < named.TypeArgs().Len() {
+			// Methods are declared on defined types, and on a generic type with its type parameters, not with arguments.
+			return nil, logger.Errorf("%v: the receiver must be a defined type without type arguments", p.fset.Position(m.Method.Pos()))
+		}
 		srcVar.Name = m.Opts.Receiver
 	}
 
